@@ -52,7 +52,8 @@ CONSTANTS
 \* ---- sub-module variables
 VARIABLES tmode, topen, tlastm, tcache, tlatest, tterm, tnfault, tnpk, tact           \* TtxAssembly
 VARIABLES xcnt, xbuf, xchk, xcur, xout, xmaxidx, xtx, xtxcur, xref, xinfo, xcyc, xevs, xnev, xact   \* Xds
-VARIABLES alast, acycle, anuid, acache, aevs, aprev, awlast, awrep, aaspect, awrun, axcall, axrun, anrecv, aact    \* Announce
+VARIABLES alast, acycle, anuid, acache, aevs, aprev, awlast, awrep, aaspect, awrun, axcall, axrun, anrecv, aact,   \* Announce
+          avpid, ahmask, ahorder, avseen, aann, anreg    \* Announce: VPS label, its own handler list (fixed: one handler for all types), ghosts
 VARIABLES hl, hrec, hnextid, emask, hdl, hlog, hntop, hfreed, hact, htx, htxok, hnprobe                     \* TtxEvents
 \* ---- own variables
 VARIABLES pc,        \* "idle" | "frame": inside vbi_decode's loop over the lines of a frame
@@ -77,7 +78,8 @@ VARIABLES pc,        \* "idle" | "frame": inside vbi_decode's loop over the line
 
 taV == <<tmode, topen, tlastm, tcache, tlatest, tterm, tnfault, tnpk, tact>>
 xV  == <<xcnt, xbuf, xchk, xcur, xout, xmaxidx, xtx, xtxcur, xref, xinfo, xcyc, xevs, xnev, xact>>
-anV == <<alast, acycle, anuid, acache, aevs, aprev, awlast, awrep, aaspect, awrun, axcall, axrun, anrecv, aact>>
+anV == <<alast, acycle, anuid, acache, aevs, aprev, awlast, awrep, aaspect, awrun, axcall, axrun, anrecv, aact,
+         avpid, ahmask, ahorder, avseen, aann, anreg>>
 evV == <<hl, hrec, hnextid, emask, hdl, hlog, hntop, hfreed, hact, htx, htxok, hnprobe>>
 ccV == <<ccs, curch, xdsmode, cclast, itv>>
 rdV == <<slot, srch, level, region>>
@@ -92,7 +94,12 @@ X  == INSTANCE Xds WITH MaxEv <- MaxSteps, HalfGuard <- TRUE, cnt <- xcnt, buf <
          nev <- xnev, lastAct <- xact
 AN == INSTANCE Announce WITH MaxRecv <- MaxSteps, UnknownOnce <- TRUE, XdsGuard <- TRUE, Calls <- {}, xcall <- axcall, xrun <- axrun, last <- alast, cycle <- acycle,
          nuid <- anuid, cache <- acache, evs <- aevs, prev <- aprev, wlast <- awlast, wrep <- awrep, aspect <- aaspect,
-         wrun <- awrun, nrecv <- anrecv, lastAct <- aact
+         wrun <- awrun, nrecv <- anrecv, lastAct <- aact,
+         \* one programme label / local time, no damaged payloads; Announce's own handler list is fixed to one handler for all
+         \* event types and never changes (registrations are modelled here with TtxEvents)
+         Labels <- {"p"}, Times <- {"t"}, Bads <- {}, Handlers <- {"h1"}, RegMasks <- {}, Apis <- {}, MaxReg <- 0,
+         InitMasks <- {{"NETWORK", "NETWORK_ID", "PROG_ID", "LOCAL_TIME", "ASPECT", "TTX_PAGE", "CAPTION"}},
+         vpid <- avpid, hmask <- ahmask, horder <- ahorder, vseen <- avseen, ann <- aann, nreg <- anreg
 TE == INSTANCE TtxEvents WITH MaxTop <- 2 * MaxSteps, MaxNested <- 0, FixUp <- TRUE, hl <- hl, rec <- hrec, nextid <- hnextid,
          emask <- emask, dl <- hdl, log <- hlog, ntop <- hntop, freed <- hfreed, lastAct <- hact,
          MaxProbe <- 0, ResetOnActivate <- TRUE, tx <- htx, txok <- htxok, nprobe <- hnprobe
@@ -141,6 +148,7 @@ XdsReset == /\ xcnt' = [k \in X!Keys |-> 0] /\ xchk' = [k \in X!Keys |-> 0] /\ x
             /\ UNCHANGED <<xbuf, xout, xmaxidx, xref, xinfo, xcyc, xevs, xnev, xact>>
 \* the network record is cleared (memset(&vbi->network, 0))
 NetClear == /\ alast' = [c \in Carriers |-> "0"] /\ acycle' = 0 /\ anuid' = "0" /\ acache' = TRUE /\ aevs' = <<>>
+            /\ aann' = "none" /\ UNCHANGED <<avpid, ahmask, ahorder, avseen, anreg>>
 \* vbi_chsw_reset(vbi, 0)
 AnReset == /\ NetClear /\ awlast' = "none" /\ awrep' = 0 /\ aaspect' = "init" /\ awrun' = 0
            /\ UNCHANGED <<aprev, axcall, axrun, anrecv, aact>>
@@ -281,7 +289,7 @@ Ext(m, packet, dc) ==
 \* the identified station drops the cache (vbi_chsw_reset(vbi, nuid)), the network record stays
 Station(c, v) ==
   /\ InFrame /\ c \in Carriers
-  /\ AN!Recv(c, v)
+  /\ AN!Recv(c, v, CHOOSE l \in AN!PayloadsOf(c) : TRUE)
   /\ IF sure /\ anuid' # anuid /\ anuid # "0"
      THEN TtxCapReset /\ chswcd' = 0
      ELSE UNCHANGED <<taV, ntrip, hflags, xV, ccV, chswcd>>
@@ -455,6 +463,7 @@ Line(l) ==
     [] l.a = "F"   -> TtxFiller(l.m)
     [] l.a = "XS"  -> XdsHeader(l.k, TRUE)
     [] l.a = "XD"  -> CcText(2, l.b, l.b)
+    [] l.a = "XH"  -> CcText(2, l.b, 0)             \* half pair: one byte, the second is NUL
     [] l.a = "XE"  -> XdsEnd(TRUE)
 Rep(n, l) == [i \in 1..n |-> l]
 RECURSIVE RowSeq(_, _, _)
@@ -472,6 +481,10 @@ ItvProg(n) == LET ch == CHOOSE x \in CcChars : x # 60 IN
               <<[a |-> "CC", c |-> 2, code |-> [k |-> "TR"]]>> \o Rep(n, [a |-> "CT", f |-> 1, c1 |-> ch, c2 |-> ch])
               \o <<[a |-> "CC", c |-> 2, code |-> [k |-> "CR"]]>>
 XdsProg(k, n) == <<[a |-> "XS", k |-> k]>> \o Rep(n, [a |-> "XD", b |-> CHOOSE b \in Bytes : TRUE]) \o <<[a |-> "XE"]>>
+\* the same with one half pair in front: the packet reaches ODD fill levels (29, 31, 33 bytes before the end code), the
+\* length guard has to count the second byte of the pair about to be stored
+XdsProgH(k, n) == <<[a |-> "XS", k |-> k], [a |-> "XH", b |-> CHOOSE b \in Bytes : TRUE]>>
+                  \o Rep(n, [a |-> "XD", b |-> CHOOSE b \in Bytes : TRUE]) \o <<[a |-> "XE"]>>
 StartProg(pr, what) ==
   /\ Idle /\ prog' = pr
   /\ UNCHANGED <<taV, xV, anV, ccV, frV, sure, cdk, ntrip, hflags, rdV, evV>> /\ Tick([a |-> "StartProg", what |-> what])
@@ -531,7 +544,8 @@ ReadSide == FetchCalls \/ SlotCalls \/ SearchCalls \/ MiscCalls \/ HandlerCalls
 PagePrograms ==
   \E p \in PageSet : \E s \in p[2], c \in Cids, n \in ProgN26 :
         (topen[TA!MagOf(p[1])] = TA!None \/ topen[TA!MagOf(p[1])].pg # p[1]) /\ StartProg(PageProg(p, s, c, n), "page")
-XdsPrograms == \E k \in X!Keys, n \in {1, 15, 16, 17} : StartProg(XdsProg(k, n), "xds")
+XdsPrograms == \/ \E k \in X!Keys, n \in {1, 15, 16, 17} : StartProg(XdsProg(k, n), "xds")
+               \/ \E k \in X!Keys, n \in {14, 15, 16} : StartProg(XdsProgH(k, n), "xds")
 ItvPrograms == \E n \in ItvLens : CcChars \ {60} # {} /\ StartProg(ItvProg(n), "itv")
 Programmes == PagePrograms \/ XdsPrograms \/ ItvPrograms
 
@@ -546,7 +560,7 @@ Spec == Init /\ [][Next]_vars
 SpecAll == InitAll /\ [][Next]_vars
 \* the programmes alone, from their first line to their last (the bounds are reached: see Reach* below)
 ProgSeeds == {PageProg(p, CHOOSE s \in p[2] : TRUE, CHOOSE c \in Cids : TRUE, n) : p \in PageSet, n \in ProgN26}
-             \cup {XdsProg(k, n) : k \in X!Keys, n \in {1, 15, 16, 17}}
+             \cup {XdsProg(k, n) : k \in X!Keys, n \in {1, 15, 16, 17}} \cup {XdsProgH(k, n) : k \in X!Keys, n \in {14, 15, 16}}
              \cup (IF CcChars \ {60} # {} THEN {ItvProg(n) : n \in ItvLens} ELSE {})
 InitProg == /\ TA!Init /\ X!Init /\ AN!Init /\ CcInit
             /\ hl = <<1>> /\ hrec = (1 :> [fn |-> CHOOSE f \in Fns : TRUE, ud |-> CHOOSE u \in Uds : TRUE, mask |-> Types])
